@@ -81,8 +81,17 @@ func c10One(c *mc.Ctx, frame []byte, k c10Case) {
 			src = append([]byte{}, frame...)
 		}
 		if k.Stream {
+			if declared >= 0 && declared <= len(frame) {
+				src = append(src, 0x5a, 0x5b, 0x5c, 0x5d, 0x5e, 0x5f) // the header is complete: the first bytes of what follows are already on the wire
+			}
 			r = bufiox.NewDefaultReader(NewEnvReader(src, k.Env).Src())
 		} else {
+			// the caller's receive buffer has a power-of-two capacity: a wrongful recycle of it shows in the pool audit
+			pc := 16
+			for pc < len(src) {
+				pc <<= 1
+			}
+			src = append(make([]byte, 0, pc), src...)
 			r = bufiox.NewBytesReader(src)
 		}
 		if k.Pre > 0 {
@@ -91,6 +100,10 @@ func c10One(c *mc.Ctx, frame []byte, k c10Case) {
 		got, err = ttheader.Decode(context.Background(), r)
 		readLen = r.ReadLen() - k.Pre
 		r.Release(nil)
+		r.Release(nil) // releasing twice in a row (error path + deferred cleanup) is harmless
+		if a := mcache.VerifTakeAudit(); len(a) > 0 {
+			bad("pool-audit:"+auditClass(a[0]), "after Decode and Release on this frame the buffer pool reports: %v", a)
+		}
 		if k.Stream || k.Pre > 0 {
 			// the reader's buffers are recycled and the input reused: decoded maps must not change
 			mcache.VerifCoTenant(true)
@@ -184,6 +197,13 @@ func c10Run(c *mc.Ctx) {
 				continue
 			}
 			c10One(c, c10SizeFrame(int(sf), av), c10Case{Gen: "size", Args: []int64{sf, int64(av)}, Desc: fmt.Sprintf("size field %d, %d bytes of header info available", sf, av)})
+			if av == d && (sf == 1 || sf%1021 == 0 || sf == 1024 || sf == 2048 || sf == 16384) {
+				// complete headers of every size class also arrive over a stream (the reader's buffer grows and retires
+				// buffers), with the first bytes of the next message already buffered, and are released twice
+				for _, env := range []EnvCfg{{}, {Chunk: 4097, ErrWithLast: true}, {Chunk: 1000, Len: true}} {
+					c10One(c, c10SizeFrame(int(sf), av), c10Case{Gen: "size", Args: []int64{sf, int64(av)}, Stream: true, Env: env, Desc: fmt.Sprintf("size field %d, complete, streamed", sf)})
+				}
+			}
 		}
 	}
 	c.DistinctN(hi - lo)
